@@ -1,106 +1,1049 @@
-// temporary probe (will be replaced)
-use q1tsim::circuit::Circuit;
+//! C19: the C interface of q1tsim (src/ffi.rs) driven through its real `extern "C"` functions under a
+//! logging global allocator, next to the equivalent Rust calls on a twin `Circuit`.
+//!
+//! usage:  c19 <outdir> run <first-case> <count>        one request line + one answer line per case
+//!         c19 <outdir> isolate <case> <call-index>     replay a case and really execute the call that is
+//!                                                      predicted to abort (prints SURVIVED if it returns)
+//!         c19 <outdir> show <case>                     print the request line of a case
+//!
+//! Line protocol: see lean/Driver/C19.lean.  Everything random derives from VERIF_SEED and the case id.
+use q1t_harness::*;
+use q1tsim::circuit::{Basis, Circuit};
+use q1tsim::ffi;
 use q1tsim::gates::*;
+use std::alloc::{GlobalAlloc, Layout, System};
+use std::collections::HashMap;
+use std::io::{Seek, SeekFrom, Write};
+use std::os::raw::{c_char, c_void};
+use std::panic::AssertUnwindSafe;
+use std::sync::atomic::{AtomicBool, AtomicPtr, AtomicUsize, Ordering};
 
-fn t<F: FnOnce() -> String + std::panic::UnwindSafe>(name: &str, f: F)
+// ------------------------------------------------------------------------------------------------
+// logging allocator
+
+#[derive(Clone, Copy)]
+struct Event { kind: u8, ptr: usize, size: usize, align: usize, ptr2: usize, size2: usize }
+
+const EV_CAP: usize = 1 << 18;
+static LOGGING: AtomicBool = AtomicBool::new(false);
+static EV_BUF: AtomicPtr<Event> = AtomicPtr::new(std::ptr::null_mut());
+static EV_LEN: AtomicUsize = AtomicUsize::new(0);
+static EV_OVERFLOW: AtomicBool = AtomicBool::new(false);
+
+struct Logging;
+
+fn push_event(e: Event)
 {
-    let r = std::panic::catch_unwind(f);
-    println!("{:50} {}", name, match r { Ok(s) => s, Err(_) => "PANIC".to_string() });
+    let buf = EV_BUF.load(Ordering::Relaxed);
+    if buf.is_null() { return; }
+    let i = EV_LEN.fetch_add(1, Ordering::Relaxed);
+    if i < EV_CAP { unsafe { *buf.add(i) = e; } } else { EV_OVERFLOW.store(true, Ordering::Relaxed); }
 }
 
-fn r<T>(x: q1tsim::error::Result<T>) -> String { match x { Ok(_) => "ok".into(), Err(e) => format!("err {}", e) } }
+unsafe impl GlobalAlloc for Logging
+{
+    unsafe fn alloc(&self, l: Layout) -> *mut u8
+    {
+        let p = System.alloc(l);
+        if LOGGING.load(Ordering::Relaxed) { push_event(Event { kind: 0, ptr: p as usize, size: l.size(), align: l.align(), ptr2: 0, size2: 0 }); }
+        p
+    }
+    unsafe fn alloc_zeroed(&self, l: Layout) -> *mut u8
+    {
+        let p = System.alloc_zeroed(l);
+        if LOGGING.load(Ordering::Relaxed) { push_event(Event { kind: 0, ptr: p as usize, size: l.size(), align: l.align(), ptr2: 0, size2: 0 }); }
+        p
+    }
+    unsafe fn dealloc(&self, p: *mut u8, l: Layout)
+    {
+        if LOGGING.load(Ordering::Relaxed) { push_event(Event { kind: 1, ptr: p as usize, size: l.size(), align: l.align(), ptr2: 0, size2: 0 }); }
+        System.dealloc(p, l)
+    }
+    unsafe fn realloc(&self, p: *mut u8, l: Layout, new_size: usize) -> *mut u8
+    {
+        let q = System.realloc(p, l, new_size);
+        if LOGGING.load(Ordering::Relaxed) { push_event(Event { kind: 2, ptr: p as usize, size: l.size(), align: l.align(), ptr2: q as usize, size2: new_size }); }
+        q
+    }
+}
+
+#[global_allocator]
+static GLOBAL: Logging = Logging;
+
+fn log_init()
+{
+    let l = Layout::array::<Event>(EV_CAP).unwrap();
+    let p = unsafe { System.alloc(l) } as *mut Event;
+    EV_BUF.store(p, Ordering::Relaxed);
+}
+
+/// Run `f` with allocator logging on; returns its value and the events.
+fn logged<T, F: FnOnce() -> T>(f: F) -> (T, Vec<Event>)
+{
+    EV_LEN.store(0, Ordering::Relaxed);
+    LOGGING.store(true, Ordering::SeqCst);
+    let r = f();
+    LOGGING.store(false, Ordering::SeqCst);
+    let n = EV_LEN.load(Ordering::Relaxed).min(EV_CAP);
+    let buf = EV_BUF.load(Ordering::Relaxed);
+    let evs = (0..n).map(|i| unsafe { *buf.add(i) }).collect();
+    (r, evs)
+}
+
+// ------------------------------------------------------------------------------------------------
+// mirror of the #[repr(C)] structs (fields of the originals are private)
+
+#[repr(C)] #[derive(Clone, Copy)]
+struct RawResult { data: *const c_void, length: usize, size: usize, restype: u32 }
+#[repr(C)] #[derive(Clone, Copy)]
+struct RawParam { value: f64, value_ptr: *const f64 }
+#[repr(C)] #[derive(Clone, Copy)]
+struct RawHistElem { key: *const c_char, count: usize }
+
+fn raw(r: ffi::CResult) -> RawResult { unsafe { std::mem::transmute::<ffi::CResult, RawResult>(r) } }
+fn unraw(r: RawResult) -> ffi::CResult { unsafe { std::mem::transmute::<RawResult, ffi::CResult>(r) } }
+fn cparams(ps: &[RawParam]) -> *const ffi::CParameter { ps.as_ptr() as *const ffi::CParameter }
+const _: () = { assert!(std::mem::size_of::<RawHistElem>() == std::mem::size_of::<ffi::CHistElem>()); };
+const _: () = { assert!(std::mem::size_of::<RawParam>() == std::mem::size_of::<ffi::CParameter>()); };
+
+fn hex(b: &[u8]) -> String { b.iter().map(|x| format!("{:02x}", x)).collect() }
+
+// ------------------------------------------------------------------------------------------------
+// live-block bookkeeping
+
+#[derive(Clone, Copy, PartialEq, Debug)]
+enum Owner { Circuit(usize), Result(usize), Nobody }
+
+struct Heap { live: HashMap<usize, (usize, usize, Owner)> }
+
+struct Delta { new_live: Vec<(usize, usize, usize)>, freed: Vec<(usize, usize, usize, Owner)>, mism: usize, unknown_free: usize }
+
+impl Heap
+{
+    fn apply(&mut self, evs: &[Event]) -> Delta
+    {
+        let mut tmp: HashMap<usize, (usize, usize)> = HashMap::new();
+        let mut order: Vec<usize> = vec![];
+        let mut d = Delta { new_live: vec![], freed: vec![], mism: 0, unknown_free: 0 };
+        let free = |this: &mut Heap, tmp: &mut HashMap<usize, (usize, usize)>, d: &mut Delta, p: usize, s: usize, a: usize| {
+            if let Some((s0, a0)) = tmp.remove(&p) { if s0 != s || a0 != a { d.mism += 1; } }
+            else if let Some((s0, a0, o)) = this.live.remove(&p) { if s0 != s || a0 != a { d.mism += 1; } d.freed.push((p, s, a, o)); }
+            else { d.unknown_free += 1; }
+        };
+        for e in evs
+        {
+            match e.kind
+            {
+                0 => { if e.ptr != 0 { tmp.insert(e.ptr, (e.size, e.align)); order.push(e.ptr); } },
+                1 => free(self, &mut tmp, &mut d, e.ptr, e.size, e.align),
+                _ => {
+                    if e.ptr2 != 0
+                    {
+                        free(self, &mut tmp, &mut d, e.ptr, e.size, e.align);
+                        tmp.insert(e.ptr2, (e.size2, e.align)); order.push(e.ptr2);
+                    }
+                }
+            }
+        }
+        let mut seen = std::collections::HashSet::new();
+        for p in order.iter().rev()
+        {
+            if seen.insert(*p) { if let Some((s, a)) = tmp.get(p) { d.new_live.push((*p, *s, *a)); } }
+        }
+        d
+    }
+}
+
+fn layouts(mut v: Vec<(usize, usize)>) -> String
+{
+    v.sort();
+    format!("[{}]", v.iter().map(|(s, a)| format!("{}:{}", s, a)).collect::<Vec<_>>().join(","))
+}
+
+// ------------------------------------------------------------------------------------------------
+// the documented gate table, Rust side: name -> constructor (written from the docs of each gate)
+
+fn is_documented(name: &str) -> Option<usize>
+{
+    // number of parameters
+    match name
+    {
+        "ch" | "cx" | "cy" | "cz" | "h" | "i" | "s" | "sdg" | "swap" | "t" | "tdg" | "v" | "vdg" | "x" | "y" | "z" => Some(0),
+        "crx" | "cry" | "crz" | "rx" | "ry" | "rz" | "u1" => Some(1),
+        "u2" => Some(2),
+        "u3" => Some(3),
+        _ => None
+    }
+}
+
+macro_rules! with_gate
+{
+    ($name:expr, $p:expr, |$g:ident| $body:expr) => {
+        match $name
+        {
+            "ch" => { let $g = CH::new(); $body },
+            "crx" => { let $g = CRX::new($p[0].clone()); $body },
+            "cry" => { let $g = CRY::new($p[0].clone()); $body },
+            "crz" => { let $g = CRZ::new($p[0].clone()); $body },
+            "cx" => { let $g = CX::new(); $body },
+            "cy" => { let $g = CY::new(); $body },
+            "cz" => { let $g = CZ::new(); $body },
+            "h" => { let $g = H::new(); $body },
+            "i" => { let $g = I::new(); $body },
+            "rx" => { let $g = RX::new($p[0].clone()); $body },
+            "ry" => { let $g = RY::new($p[0].clone()); $body },
+            "rz" => { let $g = RZ::new($p[0].clone()); $body },
+            "s" => { let $g = S::new(); $body },
+            "sdg" => { let $g = Sdg::new(); $body },
+            "swap" => { let $g = Swap::new(); $body },
+            "t" => { let $g = T::new(); $body },
+            "tdg" => { let $g = Tdg::new(); $body },
+            "u1" => { let $g = U1::new($p[0].clone()); $body },
+            "u2" => { let $g = U2::new($p[0].clone(), $p[1].clone()); $body },
+            "u3" => { let $g = U3::new($p[0].clone(), $p[1].clone(), $p[2].clone()); $body },
+            "v" => { let $g = V::new(); $body },
+            "vdg" => { let $g = Vdg::new(); $body },
+            "x" => { let $g = X::new(); $body },
+            "y" => { let $g = Y::new(); $body },
+            "z" => { let $g = Z::new(); $body },
+            _ => unreachable!()
+        }
+    };
+}
+
+// ------------------------------------------------------------------------------------------------
+// twin outcomes
+
+enum Twin { Na, Ok, Err(String), Panic, Num(usize), NoneState, Words(Vec<u64>), WordsAny(usize), Hist(Vec<(String, usize)>), Str(String) }
+
+impl Twin
+{
+    fn show(&self) -> String
+    {
+        match self
+        {
+            Twin::Na => "na".into(), Twin::Ok => "ok".into(), Twin::Err(m) => format!("err {}", hex(m.as_bytes())),
+            Twin::Panic => "panic".into(), Twin::Num(n) => format!("num {}", n), Twin::NoneState => "none".into(),
+            Twin::Words(w) => format!("words {}", w.iter().map(|x| x.to_string()).collect::<Vec<_>>().join(",")),
+            Twin::WordsAny(n) => format!("wordsany {}", n),
+            Twin::Hist(h) => format!("hist {}", h.iter().map(|(k, v)| format!("{}:{}", k, v)).collect::<Vec<_>>().join(",")),
+            Twin::Str(s) => format!("str {}", hex(s.as_bytes()))
+        }
+    }
+}
+
+fn twin_res(r: Option<q1tsim::error::Result<()>>) -> Twin
+{
+    match r { None => Twin::Panic, Some(Ok(())) => Twin::Ok, Some(Err(e)) => Twin::Err(e.to_string()) }
+}
+fn twin_str(r: Option<q1tsim::error::Result<String>>) -> Twin
+{
+    match r { None => Twin::Panic, Some(Ok(s)) => Twin::Str(s), Some(Err(e)) => Twin::Err(e.to_string()) }
+}
+fn pcatch<T, F: FnOnce() -> T>(f: F) -> Option<T> { std::panic::catch_unwind(AssertUnwindSafe(f)).ok() }
+
+// ------------------------------------------------------------------------------------------------
+// a case
+
+#[derive(Clone)]
+enum P { Direct(f64), Ref(usize) }
+
+struct Circ
+{
+    ptr: *mut Circuit,
+    twin: Circuit,
+    nq: usize, nc: usize,
+    live: bool,
+    tainted: bool,
+    executed: bool
+}
+
+struct ResultRec { raw: RawResult, keys: Vec<usize>, freed: bool }
+
+struct Case
+{
+    rng: SplitMix64,
+    heap: Heap,
+    circs: Vec<Circ>,
+    results: Vec<ResultRec>,
+    cells: Box<[f64; 6]>,
+    req: Vec<String>,
+    ans: Vec<String>,
+    isolate_call: Option<usize>,
+    aborted: bool,
+    nontrivial: bool
+}
+
+const PI: f64 = std::f64::consts::PI;
+
+fn basis_of(dir: i8) -> Option<Basis>
+{
+    match dir as u8 as char { 'x' | 'X' => Some(Basis::X), 'y' | 'Y' => Some(Basis::Y), 'z' | 'Z' => Some(Basis::Z), _ => None }
+}
+
+impl Case
+{
+    fn hname(&self, h: Option<usize>) -> String { match h { None => "null".into(), Some(i) => format!("c{}", i) } }
+    fn hptr(&self, h: Option<usize>) -> *mut Circuit { match h { None => std::ptr::null_mut(), Some(i) => self.circs[i].ptr } }
+
+    fn push(&mut self, call: String, twin: &Twin, ans: String)
+    {
+        self.req.push(format!("{} @ {}", call, twin.show()));
+        self.ans.push(ans);
+    }
+
+    /// should the FFI call be executed in this process?
+    fn may_execute(&mut self, call: &str, twin: &Twin, null_assert: bool) -> bool
+    {
+        if std::env::var("C19_TRACE").is_ok() { eprintln!("#{} {} @ {}", self.req.len(), call, twin.show()); }
+        let danger = null_assert || matches!(twin, Twin::Panic);
+        if !danger { return true; }
+        if self.isolate_call == Some(self.req.len()) { return true; }
+        self.push(call.to_string(), twin, "abort".into());
+        self.aborted = true;
+        false
+    }
+
+    /// Inspect a returned CResult, attribute blocks, produce the answer text.
+    fn result_answer(&mut self, h: Option<usize>, constant: bool, r: RawResult, evs: &[Event], any_words: bool) -> String
+    {
+        let d = self.heap.apply(evs);
+        let rid = self.results.len();
+        let mut newmap: HashMap<usize, (usize, usize)> = d.new_live.iter().map(|(p, s, a)| (*p, (*s, *a))).collect();
+        let mut own: Vec<(usize, usize)> = vec![];
+        let mut keys: Vec<usize> = vec![];
+        let mut bad_own = 0usize;
+        let take = |p: usize, own: &mut Vec<(usize, usize)>, newmap: &mut HashMap<usize, (usize, usize)>, heap: &mut Heap, bad: &mut usize| {
+            if let Some((s, a)) = newmap.remove(&p) { own.push((s, a)); heap.live.insert(p, (s, a, Owner::Result(rid))); true }
+            else { *bad += 1; false }
+        };
+        let payload;
+        let datakind;
+        let dp = r.data as usize;
+        match r.restype
+        {
+            0 | 2 => {
+                let bytes = unsafe { std::ffi::CStr::from_ptr(r.data as *const c_char) }.to_bytes().to_vec();
+                take(dp, &mut own, &mut newmap, &mut self.heap, &mut bad_own);
+                datakind = "blk";
+                payload = format!("msg:{}", hex(&bytes));
+            },
+            3 => {
+                let elems: Vec<RawHistElem> = if r.length == 0 { vec![] } else { unsafe { std::slice::from_raw_parts(r.data as *const RawHistElem, r.length) }.to_vec() };
+                let mut kv: Vec<(String, usize)> = vec![];
+                for e in elems.iter()
+                {
+                    let k = unsafe { std::ffi::CStr::from_ptr(e.key) }.to_string_lossy().into_owned();
+                    kv.push((k, e.count));
+                    if take(e.key as usize, &mut own, &mut newmap, &mut self.heap, &mut bad_own) { keys.push(e.key as usize); }
+                }
+                kv.sort();
+                if newmap.contains_key(&dp) { take(dp, &mut own, &mut newmap, &mut self.heap, &mut bad_own); datakind = "blk"; }
+                else { datakind = if dp == 0 { "null" } else { "dangling" }; }
+                payload = format!("hist:{}", kv.iter().map(|(k, v)| format!("{}:{}", k, v)).collect::<Vec<_>>().join(","));
+            },
+            5 => {
+                let ws: Vec<u64> = if r.length == 0 { vec![] } else { unsafe { std::slice::from_raw_parts(r.data as *const u64, r.length) }.to_vec() };
+                if newmap.contains_key(&dp) { take(dp, &mut own, &mut newmap, &mut self.heap, &mut bad_own); datakind = "blk"; }
+                else { datakind = if dp == 0 { "null" } else { "dangling" }; }
+                payload = if any_words { format!("wordsany:{}", ws.len()) }
+                          else { format!("words:{}", ws.iter().map(|x| x.to_string()).collect::<Vec<_>>().join(",")) };
+            },
+            _ => { datakind = if dp == 0 { "null" } else { "nonnull" }; payload = "-".into(); }
+        }
+        // the remaining new blocks: circuit internals for a mutating call, a leak for a read-only one
+        let mut extra = 0;
+        for (p, (s, a)) in newmap.iter()
+        {
+            match (constant, h)
+            {
+                (false, Some(i)) => { self.heap.live.insert(*p, (*s, *a, Owner::Circuit(i))); },
+                _ => { extra += 1; self.heap.live.insert(*p, (*s, *a, Owner::Nobody)); }
+            }
+        }
+        let foreign = d.freed.iter().filter(|(_, _, _, o)| !(Some(*o) == h.map(Owner::Circuit) && !constant)).count() + d.unknown_free;
+        self.results.push(ResultRec { raw: r, keys, freed: false });
+        if !own.is_empty() { self.nontrivial = true; }
+        format!("res {} len={} size={} data={} {} own={} extra={} foreign={} mism={}", r.restype, r.length, r.size, datakind, payload,
+            layouts(own), extra + bad_own, foreign, d.mism)
+    }
+
+    fn do_result_call<F: FnOnce() -> ffi::CResult>(&mut self, call: String, twin: Twin, h: Option<usize>, constant: bool, any_words: bool, f: F)
+    {
+        if !self.may_execute(&call, &twin, false) { return; }
+        let (r, evs) = logged(f);
+        let r = raw(r);
+        let a = self.result_answer(h, constant, r, &evs, any_words);
+        self.push(call, &twin, a);
+    }
+
+    // ---------------------------------------------------------------------------- entry points
+
+    fn new_circuit(&mut self, nq: usize, nc: usize)
+    {
+        let (ptr, evs) = logged(|| ffi::circuit_new(nq, nc));
+        let d = self.heap.apply(&evs);
+        let idx = self.circs.len();
+        let mut boxl = "-".to_string();
+        let mut extra = 0;
+        for (p, s, a) in d.new_live.iter()
+        {
+            if *p == ptr as usize { boxl = format!("{}:{}", s, a); }
+            else { extra += 1; }
+            self.heap.live.insert(*p, (*s, *a, Owner::Circuit(idx)));
+        }
+        self.circs.push(Circ { ptr, twin: Circuit::new(nq, nc), nq, nc, live: true, tainted: false, executed: false });
+        self.push(format!("new {} {}", nq, nc), &Twin::Ok, format!("handle box={} extra={} foreign={} mism={}", boxl, extra, d.freed.len() + d.unknown_free, d.mism));
+    }
+
+    fn free_circuit(&mut self, h: Option<usize>)
+    {
+        let ptr = self.hptr(h);
+        let (_, evs) = logged(|| ffi::circuit_free(ptr));
+        let d = self.heap.apply(&evs);
+        let mut boxl = "-".to_string();
+        let mut foreign = d.unknown_free;
+        for (p, s, a, o) in d.freed.iter()
+        {
+            if *p == ptr as usize { boxl = format!("{}:{}", s, a); }
+            if Some(*o) != h.map(Owner::Circuit) { foreign += 1; }
+        }
+        let leak = match h { Some(i) => self.heap.live.values().filter(|(_, _, o)| *o == Owner::Circuit(i)).count(), None => 0 };
+        if let Some(i) = h { self.circs[i].live = false; }
+        self.push(format!("free {}", self.hname(h)), &Twin::Na,
+            format!("unit box={} leak={} new={} foreign={} mism={}", boxl, leak, d.new_live.len(), foreign, d.mism));
+    }
+
+    fn nr(&mut self, h: Option<usize>, q: bool)
+    {
+        let call = format!("{} {}", if q { "nrq" } else { "nrc" }, self.hname(h));
+        let twin = match h { Some(i) => Twin::Num(if q { self.circs[i].twin.nr_qbits() } else { self.circs[i].twin.nr_cbits() }), None => Twin::Na };
+        if !self.may_execute(&call, &twin, h.is_none()) { return; }
+        let ptr = self.hptr(h);
+        let (n, evs) = logged(|| if q { ffi::circuit_nr_qbits(ptr) } else { ffi::circuit_nr_cbits(ptr) });
+        let d = self.heap.apply(&evs);
+        for (p, s, a) in d.new_live.iter() { self.heap.live.insert(*p, (*s, *a, Owner::Nobody)); }
+        self.push(call, &twin, format!("num {} extra={} foreign={}", n, d.new_live.len(), d.freed.len() + d.unknown_free));
+    }
+
+    fn cstate(&mut self, h: Option<usize>)
+    {
+        let call = format!("cstate {}", self.hname(h));
+        let mut any = false;
+        let twin = match h
+        {
+            None => Twin::Na,
+            Some(i) => match self.circs[i].twin.cstate()
+            {
+                None => Twin::NoneState,
+                Some(a) => if self.circs[i].tainted { any = true; Twin::WordsAny(a.len()) } else { Twin::Words(a.to_vec()) }
+            }
+        };
+        if !self.may_execute(&call, &twin, h.is_none()) { return; }
+        let ptr = self.hptr(h);
+        let (r, evs) = logged(|| ffi::circuit_cstate(ptr));
+        let a = self.result_answer(h, true, raw(r), &evs, any);
+        self.push(call, &twin, a);
+    }
+
+    fn params_text(ps: &Option<Vec<P>>) -> String
+    {
+        match ps
+        {
+            None => "p:null".into(),
+            Some(v) => format!("p:{}", v.iter().map(|p| match p { P::Direct(x) => format!("d{}", fbits(*x)), P::Ref(i) => format!("r{}", i) }).collect::<Vec<_>>().join(","))
+        }
+    }
+    fn list_text(tag: &str, l: &Option<Vec<usize>>) -> String
+    {
+        match l { None => format!("{}:null", tag), Some(v) => format!("{}:{}", tag, v.iter().map(|x| x.to_string()).collect::<Vec<_>>().join(",")) }
+    }
+    fn raw_params(&self, ps: &Option<Vec<P>>) -> Vec<RawParam>
+    {
+        ps.as_ref().map(|v| v.iter().map(|p| match p
+        {
+            P::Direct(x) => RawParam { value: *x, value_ptr: std::ptr::null() },
+            P::Ref(i) => RawParam { value: 0.0, value_ptr: &self.cells[*i] as *const f64 }
+        }).collect()).unwrap_or_default()
+    }
+    fn twin_params(&self, ps: &Option<Vec<P>>) -> Vec<Parameter>
+    {
+        ps.as_ref().map(|v| v.iter().map(|p| match p
+        {
+            P::Direct(x) => Parameter::Direct(*x),
+            P::Ref(i) => Parameter::FFIRef(&self.cells[*i] as *const f64)
+        }).collect()).unwrap_or_default()
+    }
+
+    /// `name`: raw bytes without the NUL
+    fn add_gate(&mut self, h: Option<usize>, name: &[u8], qbits: Option<Vec<usize>>, params: Option<Vec<P>>, nondet: bool, nr_params_if_null: usize)
+    {
+        let utf = std::str::from_utf8(name).ok().map(|s| s.to_string());
+        let call = format!("gate {} {}:{} {} {}", self.hname(h), if utf.is_some() { "n" } else { "bad" }, hex(name),
+            Self::list_text("q", &qbits), Self::params_text(&params));
+        let nparams = params.as_ref().map(|v| v.len()).unwrap_or(0);
+        let twin = match (h, &utf, &qbits)
+        {
+            (Some(i), Some(s), Some(qs)) => {
+                let l = s.to_ascii_lowercase();
+                if is_documented(&l) == Some(nparams)
+                {
+                    let tp = self.twin_params(&params);
+                    let c = &mut self.circs[i];
+                    let t = twin_res(pcatch(|| with_gate!(l.as_str(), tp, |g| c.twin.add_gate(g, qs))));
+                    if nondet && matches!(t, Twin::Ok) { c.tainted = true; }
+                    t
+                }
+                else { Twin::Na }
+            },
+            _ => Twin::Na
+        };
+        let mut cname = name.to_vec(); cname.push(0);
+        let rp = self.raw_params(&params);
+        let ptr = self.hptr(h);
+        let (qp, qn) = match &qbits { None => (std::ptr::null(), 0), Some(v) => (v.as_ptr(), v.len()) };
+        let (pp, pn) = match &params { None => (std::ptr::null(), nr_params_if_null), Some(_) => (cparams(&rp), rp.len()) };
+        self.do_result_call(call, twin, h, false, false, || ffi::circuit_add_gate(ptr, cname.as_ptr() as *const c_char, qp, qn, pp, pn));
+    }
+
+    fn add_cond(&mut self, h: Option<usize>, control: Option<Vec<usize>>, target: u64, name: &[u8], qbits: Option<Vec<usize>>, params: Option<Vec<P>>, nondet: bool)
+    {
+        let utf = std::str::from_utf8(name).ok().map(|s| s.to_string());
+        let call = format!("cgate {} {} {} {}:{} {} {}", self.hname(h), Self::list_text("c", &control), target,
+            if utf.is_some() { "n" } else { "bad" }, hex(name), Self::list_text("q", &qbits), Self::params_text(&params));
+        let nparams = params.as_ref().map(|v| v.len()).unwrap_or(0);
+        let twin = match (h, &utf, &qbits, &control)
+        {
+            (Some(i), Some(s), Some(qs), Some(ct)) => {
+                let l = s.to_ascii_lowercase();
+                if is_documented(&l) == Some(nparams)
+                {
+                    let tp = self.twin_params(&params);
+                    let c = &mut self.circs[i];
+                    let t = twin_res(pcatch(|| with_gate!(l.as_str(), tp, |g| c.twin.add_conditional_gate(ct, target, g, qs))));
+                    if nondet && matches!(t, Twin::Ok) { c.tainted = true; }
+                    t
+                }
+                else { Twin::Na }
+            },
+            _ => Twin::Na
+        };
+        let mut cname = name.to_vec(); cname.push(0);
+        let rp = self.raw_params(&params);
+        let ptr = self.hptr(h);
+        let (cp, cn) = match &control { None => (std::ptr::null(), 0), Some(v) => (v.as_ptr(), v.len()) };
+        let (qp, qn) = match &qbits { None => (std::ptr::null(), 0), Some(v) => (v.as_ptr(), v.len()) };
+        let (pp, pn) = match &params { None => (std::ptr::null(), 0), Some(_) => (cparams(&rp), rp.len()) };
+        // the FFI circuit must see the same outcome as the twin for the bookkeeping to stay aligned:
+        // where the C interface refuses a documented gate the twin has already accepted it; undo that below
+        let before = self.results.len();
+        let twin_ok = matches!(twin, Twin::Ok);
+        self.do_result_call(call, twin, h, false, false, || ffi::circuit_add_conditional_gate(ptr, cp, cn, target, cname.as_ptr() as *const c_char, qp, qn, pp, pn));
+        if twin_ok && self.results.len() > before && self.results[before].raw.restype == 0
+        {
+            // divergence (reported by the checker); the twin can no longer follow this circuit
+            if let Some(i) = h { self.circs[i].tainted = true; self.circs[i].executed = true; self.diverged(i); }
+        }
+    }
+
+    fn diverged(&mut self, _i: usize) { self.aborted = true; }
+
+    fn simple<FT: FnOnce(&mut Circuit) -> q1tsim::error::Result<()>, FF: FnOnce(*mut Circuit) -> ffi::CResult>(&mut self, call: String, h: Option<usize>, na: bool, ft: FT, ff: FF)
+    {
+        let twin = match h
+        {
+            Some(i) if !na => { let c = &mut self.circs[i]; twin_res(pcatch(|| ft(&mut c.twin))) },
+            _ => Twin::Na
+        };
+        let ptr = self.hptr(h);
+        self.do_result_call(call, twin, h, false, false, || ff(ptr));
+    }
+
+    fn reset(&mut self, h: Option<usize>, q: usize)
+    {
+        self.simple(format!("reset {} {}", self.hname(h), q), h, false, |c| c.reset(q), |p| ffi::circuit_reset(p, q));
+    }
+    fn reset_all(&mut self, h: Option<usize>)
+    {
+        self.simple(format!("resetall {}", self.hname(h)), h, false, |c| { c.reset_all(); Ok(()) }, |p| ffi::circuit_reset_all(p));
+    }
+    fn measure(&mut self, h: Option<usize>, q: usize, cb: usize, dir: i8, collapse: u8)
+    {
+        let b = basis_of(dir);
+        if let (Some(i), Some(bb)) = (h, b) { if !matches!(bb, Basis::Z) { self.circs[i].tainted = true; } }
+        self.simple(format!("measure {} {} {} {} {}", self.hname(h), q, cb, dir, collapse), h, b.is_none(),
+            |c| if collapse != 0 { c.measure_basis(q, cb, b.unwrap()) } else { c.peek_basis(q, cb, b.unwrap()) },
+            |p| ffi::circuit_measure(p, q, cb, dir as c_char, collapse));
+    }
+    fn measure_all(&mut self, h: Option<usize>, cbits: Option<Vec<usize>>, dir: i8, collapse: u8)
+    {
+        let b = basis_of(dir);
+        if let (Some(i), Some(bb)) = (h, b) { if !matches!(bb, Basis::Z) { self.circs[i].tainted = true; } }
+        let call = format!("measureall {} {} {} {}", self.hname(h), Self::list_text("b", &cbits), dir, collapse);
+        let (bp, bn) = match &cbits { None => (std::ptr::null(), 0), Some(v) => (v.as_ptr(), v.len()) };
+        let cb2 = cbits.clone();
+        self.simple(call, h, b.is_none() || cbits.is_none(),
+            |c| if collapse != 0 { c.measure_all_basis(cb2.as_ref().unwrap(), b.unwrap()) } else { c.peek_all_basis(cb2.as_ref().unwrap(), b.unwrap()) },
+            |p| ffi::circuit_measure_all(p, bp, bn, dir as c_char, collapse));
+    }
+    fn execute(&mut self, h: Option<usize>, n: usize)
+    {
+        if let Some(i) = h { self.circs[i].executed = true; }
+        self.simple(format!("execute {} {}", self.hname(h), n), h, false, |c| c.execute(n), |p| ffi::circuit_execute(p, n));
+    }
+    fn reexecute(&mut self, h: Option<usize>)
+    {
+        self.simple(format!("reexecute {}", self.hname(h)), h, false, |c| c.reexecute(), |p| ffi::circuit_reexecute(p));
+    }
+    fn histogram(&mut self, h: Option<usize>)
+    {
+        let call = format!("histogram {}", self.hname(h));
+        let twin = match h
+        {
+            None => Twin::Na,
+            Some(i) => match pcatch(|| self.circs[i].twin.histogram_string())
+            {
+                None => Twin::Panic,
+                Some(Ok(m)) => { let mut v: Vec<(String, usize)> = m.into_iter().collect(); v.sort(); Twin::Hist(v) },
+                Some(Err(e)) => Twin::Err(e.to_string())
+            }
+        };
+        let ptr = self.hptr(h);
+        self.do_result_call(call, twin, h, true, false, || ffi::circuit_histogram(ptr));
+    }
+    fn export(&mut self, h: Option<usize>, which: usize)
+    {
+        let names = ["latex", "openqasm", "cqasm"];
+        let call = format!("{} {}", names[which], self.hname(h));
+        let twin = match h
+        {
+            None => Twin::Na,
+            Some(i) => { let c = &self.circs[i].twin; twin_str(pcatch(|| match which { 0 => c.latex(), 1 => c.open_qasm(), _ => c.c_qasm() })) }
+        };
+        let ptr = self.hptr(h);
+        self.do_result_call(call, twin, h, true, false, || match which { 0 => ffi::circuit_latex(ptr), 1 => ffi::circuit_open_qasm(ptr), _ => ffi::circuit_c_qasm(ptr) });
+    }
+
+    fn result_free(&mut self, rid: usize)
+    {
+        let r = self.results[rid].raw;
+        let (_, evs) = logged(|| ffi::result_free(unraw(r)));
+        let d = self.heap.apply(&evs);
+        let freed: Vec<(usize, usize)> = d.freed.iter().map(|(_, s, a, _)| (*s, *a)).collect();
+        let foreign = d.freed.iter().filter(|(_, _, _, o)| *o != Owner::Result(rid)).count() + d.unknown_free;
+        for (p, s, a) in d.new_live.iter() { self.heap.live.insert(*p, (*s, *a, Owner::Nobody)); }
+        self.results[rid].freed = true;
+        self.push(format!("rfree r{}", rid), &Twin::Na, format!("unit freed={} new={} foreign={} mism={}", layouts(freed), d.new_live.len(), foreign, d.mism));
+    }
+
+    fn poke(&mut self, cell: usize, v: f64)
+    {
+        self.cells[cell] = v;
+        self.push(format!("poke {} {}", cell, fbits(v)), &Twin::Na, "-".into());
+    }
+
+    fn end(&mut self)
+    {
+        let mut live: Vec<(usize, usize)> = vec![];
+        for (p, (s, a, o)) in self.heap.live.iter()
+        {
+            match o
+            {
+                Owner::Result(_) => live.push((*s, *a)),
+                Owner::Circuit(i) => if *p == self.circs[*i].ptr as usize { live.push((*s, *a)); },
+                Owner::Nobody => live.push((*s, *a))
+            }
+        }
+        let text = layouts(live);
+        self.cleanup();
+        let clean = self.heap.live.is_empty();
+        self.push("end".into(), &Twin::Na, format!("live={} clean={}", text, if clean { 1 } else { 0 }));
+    }
+
+    /// free whatever is still outstanding (not part of the history)
+    fn cleanup(&mut self)
+    {
+        for rid in 0..self.results.len()
+        {
+            if !self.results[rid].freed
+            {
+                let r = self.results[rid].raw;
+                let (_, evs) = logged(|| ffi::result_free(unraw(r)));
+                self.heap.apply(&evs);
+                self.results[rid].freed = true;
+            }
+        }
+        for i in 0..self.circs.len()
+        {
+            if self.circs[i].live
+            {
+                let p = self.circs[i].ptr;
+                let (_, evs) = logged(|| ffi::circuit_free(p));
+                self.heap.apply(&evs);
+                self.circs[i].live = false;
+            }
+        }
+    }
+}
+
+// ------------------------------------------------------------------------------------------------
+// generator
+
+const DET0: [&str; 9] = ["x", "y", "z", "s", "sdg", "t", "tdg", "i", "X"];
+const DET2: [&str; 5] = ["cx", "cy", "cz", "swap", "Swap"];
+const NONDET0: [&str; 4] = ["h", "v", "vdg", "H"];
+const ALLNAMES: [&str; 25] = ["ch", "crx", "cry", "crz", "cx", "cy", "cz", "h", "i", "rx", "ry", "rz", "s", "sdg", "swap", "t", "tdg",
+    "u1", "u2", "u3", "v", "vdg", "x", "y", "z"];
+
+fn mixed_case(rng: &mut SplitMix64, s: &str) -> String
+{
+    match rng.below(4)
+    {
+        0 => s.to_string(),
+        1 => s.to_ascii_uppercase(),
+        _ => s.chars().map(|c| if rng.coin() { c.to_ascii_uppercase() } else { c }).collect()
+    }
+}
+
+fn distinct(rng: &mut SplitMix64, n: usize, k: usize) -> Vec<usize>
+{
+    let mut v: Vec<usize> = (0..n).collect();
+    rng.shuffle(&mut v);
+    v.truncate(k);
+    v
+}
+
+struct Profile { malformed: f64, nondet: f64, nullp: f64, two: bool, live: bool, leaky: bool, big_cbits: bool, zero_q: bool, steps: usize }
+
+fn profile(rng: &mut SplitMix64, id: usize) -> (Profile, &'static str)
+{
+    let steps = 6 + rng.below(22) as usize;
+    match id % 8
+    {
+        0 | 1 => (Profile { malformed: 0.0, nondet: 0.0, nullp: 0.0, two: false, live: false, leaky: false, big_cbits: false, zero_q: false, steps }, "det"),
+        2 => (Profile { malformed: 0.05, nondet: 0.5, nullp: 0.0, two: false, live: false, leaky: false, big_cbits: false, zero_q: false, steps }, "static"),
+        3 | 4 => (Profile { malformed: 0.35, nondet: 0.1, nullp: 0.08, two: false, live: false, leaky: rng.below(4) == 0, big_cbits: rng.below(6) == 0, zero_q: rng.below(8) == 0, steps }, "malformed"),
+        5 => (Profile { malformed: 0.0, nondet: 0.0, nullp: 0.0, two: false, live: true, leaky: false, big_cbits: false, zero_q: false, steps }, "live"),
+        6 => (Profile { malformed: 0.1, nondet: 0.1, nullp: 0.03, two: true, live: false, leaky: rng.below(3) == 0, big_cbits: false, zero_q: false, steps }, "two"),
+        _ => (Profile { malformed: 0.15, nondet: 0.2, nullp: 0.03, two: rng.coin(), live: rng.coin(), leaky: rng.below(3) == 0, big_cbits: rng.below(10) == 0, zero_q: rng.below(12) == 0, steps }, "mixed")
+    }
+}
+
+fn gen_case(seed: u64, id: usize, isolate_call: Option<usize>) -> (Case, &'static str)
+{
+    let mut rng = SplitMix64(seed.wrapping_mul(0x9E3779B97F4A7C15) ^ (id as u64).wrapping_mul(0xD1B54A32D192ED03));
+    rng.next();
+    let (pf, kind) = profile(&mut rng, id);
+    let mut c = Case { rng, heap: Heap { live: HashMap::new() }, circs: vec![], results: vec![], cells: Box::new([0.0; 6]),
+        req: vec![], ans: vec![], isolate_call, aborted: false, nontrivial: false };
+    let ncirc = if pf.two { 2 } else { 1 };
+    for _ in 0..ncirc
+    {
+        let nq = if pf.zero_q { 0 } else { 1 + c.rng.below(4) as usize };
+        let nc = if pf.big_cbits { 60 + c.rng.below(12) as usize } else { c.rng.below(5) as usize };
+        c.new_circuit(nq, nc);
+    }
+    for _ in 0..pf.steps
+    {
+        if c.aborted { break; }
+        step(&mut c, &pf);
+    }
+    if !c.aborted
+    {
+        // free results in a generated order, then the circuits
+        let mut pending: Vec<usize> = (0..c.results.len()).filter(|i| !c.results[*i].freed).collect();
+        c.rng.shuffle(&mut pending);
+        for rid in pending
+        {
+            if pf.leaky && c.rng.below(4) == 0 { continue; }
+            c.result_free(rid);
+        }
+        for i in 0..c.circs.len()
+        {
+            if c.circs[i].live && !(pf.leaky && c.rng.below(5) == 0) { c.free_circuit(Some(i)); }
+        }
+        if c.rng.below(6) == 0 { c.free_circuit(None); }
+        c.end();
+    }
+    else { c.cleanup(); }
+    (c, kind)
+}
+
+fn chance(rng: &mut SplitMix64, p: f64) -> bool { rng.unit() < p }
+
+fn pick_handle(c: &mut Case, pf: &Profile) -> Option<usize>
+{
+    if chance(&mut c.rng, pf.nullp) { return None; }
+    let live: Vec<usize> = (0..c.circs.len()).filter(|i| c.circs[*i].live).collect();
+    if live.is_empty() { None } else { Some(*c.rng.pick(&live)) }
+}
+
+fn angle(rng: &mut SplitMix64, det: bool) -> f64
+{
+    if det { if rng.coin() { 0.0 } else { PI } } else { (rng.unit() - 0.5) * 8.0 }
+}
+
+fn step(c: &mut Case, pf: &Profile)
+{
+    let h = pick_handle(c, pf);
+    let (nq, nc, tainted, executed) = match h { Some(i) => (c.circs[i].nq, c.circs[i].nc, c.circs[i].tainted, c.circs[i].executed), None => (2, 2, false, false) };
+    let malformed = chance(&mut c.rng, pf.malformed);
+    let r = c.rng.below(100);
+    if r < 34
+    {
+        // a gate
+        if malformed
+        {
+            match c.rng.below(8)
+            {
+                0 => { // unknown / odd names
+                    let names: [&[u8]; 10] = [b"", b"foo", b"cnot", b"xx", b"ccx", b"u4", b" x", "\u{212A}".as_bytes(), "\u{0130}".as_bytes(), b"h\xff"];
+                    let n = *c.rng.pick(&names);
+                    c.add_gate(h, n, Some(vec![0]), Some(vec![]), false, 0);
+                },
+                1 => { let n = *c.rng.pick(&[&b"\xc3\x28"[..], &b"\xff\xfe"[..], &b"x\x80"[..]]); c.add_gate(h, n, Some(vec![0]), None, false, 0); },
+                2 => { // wrong number of parameters
+                    let name = *c.rng.pick(&ALLNAMES);
+                    let want = is_documented(name).unwrap();
+                    let mut k = c.rng.below(5) as usize; if k == want { k = (k + 1) % 5; }
+                    let ps = (0..k).map(|_| P::Direct(angle(&mut c.rng, false))).collect();
+                    let nm = mixed_case(&mut c.rng, name);
+                    c.add_gate(h, nm.as_bytes(), Some(vec![0]), Some(ps), false, 0);
+                },
+                3 => { // wrong arity (accepted by add_gate, refused or worse later)
+                    let name = *c.rng.pick(&["x", "h", "cx", "swap", "cz", "s"]);
+                    let k = c.rng.below(4) as usize;
+                    let qs = (0..k).map(|_| c.rng.below(nq.max(1) as u64) as usize).collect();
+                    c.add_gate(h, name.as_bytes(), Some(qs), Some(vec![]), true, 0);
+                },
+                4 => { // out-of-range qubit
+                    let name = *c.rng.pick(&["x", "cx", "rz"]);
+                    let bad = nq + c.rng.below(3) as usize + if c.rng.below(8) == 0 { 1usize << 40 } else { 0 };
+                    let qs = if name == "cx" { if c.rng.coin() { vec![0, bad] } else { vec![bad, 0] } } else { vec![bad] };
+                    let ps = if name == "rz" { vec![P::Direct(0.5)] } else { vec![] };
+                    c.add_gate(h, name.as_bytes(), Some(qs), Some(ps), false, 0);
+                },
+                5 => { c.add_gate(h, b"x", None, Some(vec![]), false, 0); },                      // NULL qbits
+                6 => { let k = 1 + c.rng.below(3) as usize; c.add_gate(h, b"rx", Some(vec![0]), None, false, k); },   // NULL params with a count
+                _ => { // duplicated qubits
+                    let name = *c.rng.pick(&["cx", "swap", "cz"]);
+                    let q = c.rng.below(nq.max(1) as u64) as usize;
+                    c.add_gate(h, name.as_bytes(), Some(vec![q, q]), Some(vec![]), true, 0);
+                }
+            }
+            return;
+        }
+        if nq == 0 { c.reset_all(h); return; }
+        let nondet = chance(&mut c.rng, pf.nondet);
+        let k = c.rng.below(10);
+        if pf.live && k < 5
+        {
+            let cell = c.rng.below(6) as usize;
+            let name = *c.rng.pick(&["rx", "RY", "rz", "u1"]);
+            let det = matches!(c.cells[cell].to_bits(), x if x == 0f64.to_bits() || x == PI.to_bits()) || name == "rz" || name == "u1";
+            let q = c.rng.below(nq as u64) as usize;
+            c.add_gate(h, name.as_bytes(), Some(vec![q]), Some(vec![P::Ref(cell)]), !det, 0);
+        }
+        else if k < 4
+        {
+            let name = if nondet { *c.rng.pick(&NONDET0) } else { *c.rng.pick(&DET0) };
+            let nm = mixed_case(&mut c.rng, name);
+            let q = c.rng.below(nq as u64) as usize;
+            let ps = if c.rng.coin() { Some(vec![]) } else { None };
+            c.add_gate(h, nm.as_bytes(), Some(vec![q]), ps, nondet, 0);
+        }
+        else if k < 6 && nq >= 2
+        {
+            let name = if nondet { "ch" } else { *c.rng.pick(&DET2) };
+            let qs = distinct(&mut c.rng, nq, 2);
+            c.add_gate(h, name.as_bytes(), Some(qs), Some(vec![]), nondet, 0);
+        }
+        else if k < 8
+        {
+            let name = *c.rng.pick(&["rx", "ry", "rz", "u1", "Rx", "U1"]);
+            let isz = name.to_ascii_lowercase() == "rz" || name.to_ascii_lowercase() == "u1";
+            let a = angle(&mut c.rng, !nondet && !isz);
+            let q = c.rng.below(nq as u64) as usize;
+            c.add_gate(h, name.as_bytes(), Some(vec![q]), Some(vec![P::Direct(a)]), nondet && !isz, 0);
+        }
+        else if k < 9
+        {
+            let q = c.rng.below(nq as u64) as usize;
+            if nondet || c.rng.coin()
+            {
+                let ps = vec![P::Direct(angle(&mut c.rng, false)), P::Direct(angle(&mut c.rng, false))];
+                c.add_gate(h, b"u2", Some(vec![q]), Some(ps), true, 0);
+            }
+            else
+            {
+                let ps = vec![P::Direct(angle(&mut c.rng, true)), P::Direct(angle(&mut c.rng, false)), P::Direct(angle(&mut c.rng, false))];
+                c.add_gate(h, b"U3", Some(vec![q]), Some(ps), false, 0);
+            }
+        }
+        else if nq >= 2
+        {
+            let name = *c.rng.pick(&["crx", "cry", "crz", "CRZ"]);
+            let isz = name.to_ascii_lowercase() == "crz";
+            let a = angle(&mut c.rng, !nondet && !isz);
+            let qs = distinct(&mut c.rng, nq, 2);
+            c.add_gate(h, name.as_bytes(), Some(qs), Some(vec![P::Direct(a)]), nondet && !isz, 0);
+        }
+        else
+        {
+            c.add_gate(h, b"x", Some(vec![0]), Some(vec![]), false, 0);
+        }
+    }
+    else if r < 44
+    {
+        // conditional gate
+        let ctl: Option<Vec<usize>> = if malformed
+        {
+            match c.rng.below(5)
+            {
+                0 => None,
+                1 => Some(vec![nc + c.rng.below(3) as usize]),
+                2 => Some(vec![]),
+                3 => Some(vec![0; 2]),
+                _ => Some((0..nc.min(3)).collect())
+            }
+        }
+        else if nc == 0 { Some(vec![]) } else { let k = 1 + c.rng.below(nc.min(3) as u64) as usize; Some(distinct(&mut c.rng, nc, k)) };
+        let target = c.rng.below(4);
+        let (name, nparams): (&str, usize) = if malformed && c.rng.coin()
+        {
+            *c.rng.pick(&[("crx", 1), ("cry", 1), ("crz", 1), ("u2", 1), ("u3", 2), ("u2", 0), ("rx", 2), ("foo", 0), ("ch", 1)])
+        }
+        else
+        {
+            *c.rng.pick(&[("x", 0), ("X", 0), ("z", 0), ("s", 0), ("cx", 0), ("swap", 0), ("rz", 1), ("u1", 1), ("rx", 1), ("u3", 3), ("h", 0), ("u2", 2), ("y", 0), ("i", 0), ("t", 0), ("cz", 0)])
+        };
+        let l = name.to_ascii_lowercase();
+        let two = matches!(l.as_str(), "cx" | "swap" | "cz" | "crx" | "cry" | "crz" | "ch");
+        if nq == 0 || (two && nq < 2) { c.reset_all(h); return; }
+        let qs = if two { distinct(&mut c.rng, nq, 2) } else { vec![c.rng.below(nq as u64) as usize] };
+        let qs = if malformed && c.rng.below(6) == 0 { None } else { Some(qs) };
+        let nondet = matches!(l.as_str(), "h" | "u2" | "ch") ;
+        let det_angle = !matches!(l.as_str(), "rz" | "u1");
+        let mut ps: Vec<P> = vec![];
+        for j in 0..nparams { ps.push(P::Direct(if j == 0 && det_angle { angle(&mut c.rng, true) } else { angle(&mut c.rng, false) })); }
+        c.add_cond(h, ctl, target, name.as_bytes(), qs, Some(ps), nondet);
+    }
+    else if r < 54
+    {
+        let q = if malformed && c.rng.coin() { nq + c.rng.below(2) as usize } else if nq == 0 { 0 } else { c.rng.below(nq as u64) as usize };
+        let cb = if malformed && c.rng.coin() { nc + c.rng.below(2) as usize } else if nc == 0 { 0 } else { c.rng.below(nc as u64) as usize };
+        let dir: i8 = if malformed && c.rng.below(3) == 0 { *c.rng.pick(&[b'q' as i8, 0, -1, b'1' as i8, -128]) }
+            else if chance(&mut c.rng, pf.nondet) { *c.rng.pick(&[b'x' as i8, b'Y' as i8, b'X' as i8, b'y' as i8]) }
+            else { *c.rng.pick(&[b'z' as i8, b'Z' as i8]) };
+        let collapse = *c.rng.pick(&[1u8, 1, 0, 2, 255]);
+        c.measure(h, q, cb, dir, collapse);
+    }
+    else if r < 60
+    {
+        let cbits: Option<Vec<usize>> = if malformed
+        {
+            match c.rng.below(4) { 0 => None, 1 => Some(vec![nc + 1]), 2 => Some(vec![0; nq + 1]), _ => Some((0..nq.saturating_sub(1)).collect()) }
+        }
+        else if nc >= nq { Some(distinct(&mut c.rng, nc, nq)) } else { Some((0..nq).map(|i| i % nc.max(1)).collect()) };
+        let dir: i8 = if malformed && c.rng.below(3) == 0 { b'w' as i8 } else if chance(&mut c.rng, pf.nondet) { b'x' as i8 } else { b'z' as i8 };
+        let collapse = *c.rng.pick(&[1u8, 0]);
+        c.measure_all(h, cbits, dir, collapse);
+    }
+    else if r < 64
+    {
+        if c.rng.coin() { let q = if malformed { nq + 1 } else if nq == 0 { 0 } else { c.rng.below(nq as u64) as usize }; c.reset(h, q); } else { c.reset_all(h); }
+    }
+    else if r < 72
+    {
+        let n = if malformed && c.rng.below(3) == 0 { 0 } else { 1 + c.rng.below(6) as usize };
+        c.execute(h, n);
+    }
+    else if r < 75 { c.reexecute(h); }
+    else if r < 80 { c.cstate(h); }
+    else if r < 84 { if !(tainted && executed) { c.histogram(h); } else { c.cstate(h); } }
+    else if r < 90 { let w = c.rng.below(3) as usize; c.export(h, w); }
+    else if r < 92 { let q = c.rng.coin(); c.nr(h, q); }
+    else if r < 98
+    {
+        let pending: Vec<usize> = (0..c.results.len()).filter(|i| !c.results[*i].freed).collect();
+        if !pending.is_empty() { let rid = *c.rng.pick(&pending); c.result_free(rid); }
+    }
+    else if pf.live || c.rng.coin()
+    {
+        let cell = c.rng.below(6) as usize;
+        let v = if c.rng.coin() { PI } else { 0.0 };
+        c.poke(cell, v);
+    }
+    else if pf.two && c.rng.below(3) == 0 { c.free_circuit(h); }
+    else { c.cstate(h); }
+}
+
+// ------------------------------------------------------------------------------------------------
+
+fn warm_up()
+{
+    // lazily initialised globals (thread_rng, regex caches, ...) must exist before anything is logged
+    let mut c = Circuit::new(2, 2);
+    c.h(0).unwrap(); c.add_gate(T::new(), &[1]).unwrap(); c.measure(0, 0).unwrap(); c.execute(3).unwrap();
+    let _ = c.histogram_string(); let _ = c.open_qasm(); let _ = c.c_qasm(); let _ = c.latex();
+    let mut d = Circuit::new(1, 1);
+    d.x(0).unwrap(); d.measure(0, 0).unwrap(); d.execute(2).unwrap();
+    let p = ffi::circuit_new(1, 1);
+    let n = std::ffi::CString::new("h").unwrap();
+    let q = [0usize];
+    ffi::result_free(ffi::circuit_add_gate(p, n.as_ptr(), q.as_ptr(), 1, std::ptr::null(), 0));
+    ffi::result_free(ffi::circuit_execute(p, 2));
+    ffi::result_free(ffi::circuit_histogram(p));
+    ffi::result_free(ffi::circuit_latex(p));
+    ffi::circuit_free(p);
+}
 
 fn main()
 {
-    std::panic::set_hook(Box::new(|_| {}));
-    t("cx [0] exec1", || { let mut c = Circuit::new(2, 2); c.add_gate(CX::new(), &[0]).unwrap(); r(c.execute(1)) });
-    t("cx [0] +t exec1", || { let mut c = Circuit::new(2, 2); c.add_gate(T::new(), &[0]).unwrap(); c.add_gate(CX::new(), &[0]).unwrap(); r(c.execute(1)) });
-    t("cx [0] open_qasm", || { let mut c = Circuit::new(2, 2); c.add_gate(CX::new(), &[0]).unwrap(); r(c.open_qasm()) });
-    t("cx [0] c_qasm", || { let mut c = Circuit::new(2, 2); c.add_gate(CX::new(), &[0]).unwrap(); r(c.c_qasm()) });
-    t("cx [0] latex", || { let mut c = Circuit::new(2, 2); c.add_gate(CX::new(), &[0]).unwrap(); r(c.latex()) });
-    t("cx [0,1,0] exec", || { let mut c = Circuit::new(2, 2); c.add_gate(CX::new(), &[0,1,0]).unwrap(); r(c.execute(1)) });
-    t("cx [0,1,0] +t exec", || { let mut c = Circuit::new(2, 2); c.add_gate(T::new(), &[0]).unwrap(); c.add_gate(CX::new(), &[0,1,0]).unwrap(); r(c.execute(1)) });
-    t("cx [0,1,0] open_qasm", || { let mut c = Circuit::new(2, 2); c.add_gate(CX::new(), &[0,1,0]).unwrap(); r(c.open_qasm()) });
-    t("cx [0,1,0] c_qasm", || { let mut c = Circuit::new(2, 2); c.add_gate(CX::new(), &[0,1,0]).unwrap(); r(c.c_qasm()) });
-    t("cx [0,1,0] latex", || { let mut c = Circuit::new(2, 2); c.add_gate(CX::new(), &[0,1,0]).unwrap(); r(c.latex()) });
-    t("h [] exec", || { let mut c = Circuit::new(2, 2); c.add_gate(H::new(), &[]).unwrap(); r(c.execute(1)) });
-    t("h [] +t exec", || { let mut c = Circuit::new(2, 2); c.add_gate(T::new(), &[0]).unwrap(); c.add_gate(H::new(), &[]).unwrap(); r(c.execute(1)) });
-    t("h [] open_qasm", || { let mut c = Circuit::new(2, 2); c.add_gate(H::new(), &[]).unwrap(); r(c.open_qasm()) });
-    t("h [] c_qasm", || { let mut c = Circuit::new(2, 2); c.add_gate(H::new(), &[]).unwrap(); r(c.c_qasm()) });
-    t("h [] latex", || { let mut c = Circuit::new(2, 2); c.add_gate(H::new(), &[]).unwrap(); r(c.latex()) });
-    t("h [0,1] exec", || { let mut c = Circuit::new(2, 2); c.add_gate(H::new(), &[0,1]).unwrap(); r(c.execute(1)) });
-    t("h [0,1] +t exec", || { let mut c = Circuit::new(2, 2); c.add_gate(T::new(), &[0]).unwrap(); c.add_gate(H::new(), &[0,1]).unwrap(); r(c.execute(1)) });
-    t("h [0,1] open_qasm", || { let mut c = Circuit::new(2, 2); c.add_gate(H::new(), &[0,1]).unwrap(); r(c.open_qasm()) });
-    t("h [0,1] c_qasm", || { let mut c = Circuit::new(2, 2); c.add_gate(H::new(), &[0,1]).unwrap(); r(c.c_qasm()) });
-    t("h [0,1] latex", || { let mut c = Circuit::new(2, 2); c.add_gate(H::new(), &[0,1]).unwrap(); r(c.latex()) });
-    t("cx [0,0] exec (stab)", || { let mut c = Circuit::new(2, 2); c.add_gate(CX::new(), &[0,0]).unwrap(); r(c.execute(1)) });
-    t("cx [0,0] +t exec (vec)", || { let mut c = Circuit::new(2, 2); c.add_gate(T::new(), &[0]).unwrap(); c.add_gate(CX::new(), &[0,0]).unwrap(); r(c.execute(1)) });
-    t("cx [0,0] open_qasm", || { let mut c = Circuit::new(2, 2); c.add_gate(CX::new(), &[0,0]).unwrap(); r(c.open_qasm()) });
-    t("cx [0,0] latex", || { let mut c = Circuit::new(2, 2); c.add_gate(CX::new(), &[0,0]).unwrap(); r(c.latex()) });
-    t("cx [1,0] latex", || { let mut c = Circuit::new(2, 2); c.add_gate(CX::new(), &[1,0]).unwrap(); r(c.latex()) });
-    t("swap [0,0] exec", || { let mut c = Circuit::new(2, 2); c.add_gate(Swap::new(), &[0,0]).unwrap(); r(c.execute(1)) });
-    t("exec0 empty", || { let mut c = Circuit::new(2, 2); r(c.execute(0)) });
-    t("exec0 x", || { let mut c = Circuit::new(2, 2); c.x(0).unwrap(); r(c.execute(0)) });
-    t("exec0 x measure", || { let mut c = Circuit::new(2, 2); c.x(0).unwrap(); c.measure(0,0).unwrap(); r(c.execute(0)) });
-    t("exec0 t measure", || { let mut c = Circuit::new(2, 2); c.add_gate(T::new(), &[0]).unwrap(); c.measure(0,0).unwrap(); r(c.execute(0)) });
-    t("exec0 x measure measure_all", || { let mut c = Circuit::new(2, 2); c.x(0).unwrap(); c.measure(0,0).unwrap(); c.measure_all(&[0,1]).unwrap(); r(c.execute(0)) });
-    t("exec0 t x measure measure_all", || { let mut c = Circuit::new(2, 2); c.add_gate(T::new(), &[0]).unwrap(); c.x(0).unwrap(); c.measure(0,0).unwrap(); c.measure_all(&[0,1]).unwrap(); r(c.execute(0)) });
-    t("exec0 cond", || { let mut c = Circuit::new(2, 2); c.add_conditional_gate(&[0], 1, X::new(), &[0]).unwrap(); r(c.execute(0)) });
-    t("exec0 t cond", || { let mut c = Circuit::new(2, 2); c.add_gate(T::new(), &[0]).unwrap(); c.add_conditional_gate(&[0], 1, X::new(), &[0]).unwrap(); r(c.execute(0)) });
-    t("exec0 reset", || { let mut c = Circuit::new(2, 2); c.reset(0).unwrap(); r(c.execute(0)) });
-    t("exec0 peek", || { let mut c = Circuit::new(2, 2); c.peek(0,0).unwrap(); r(c.execute(0)) });
-    t("exec0 peek_all", || { let mut c = Circuit::new(2, 2); c.peek_all(&[0,1]).unwrap(); r(c.execute(0)) });
-    t("exec0 t peek_all", || { let mut c = Circuit::new(2, 2); c.add_gate(T::new(), &[0]).unwrap(); c.peek_all(&[0,1]).unwrap(); r(c.execute(0)) });
-    t("exec0 measure_all", || { let mut c = Circuit::new(2, 2); c.measure_all(&[0,1]).unwrap(); r(c.execute(0)) });
-    t("exec0 t measure_all", || { let mut c = Circuit::new(2, 2); c.add_gate(T::new(), &[0]).unwrap(); c.measure_all(&[0,1]).unwrap(); r(c.execute(0)) });
-    t("exec0 reset_all", || { let mut c = Circuit::new(2, 2); c.reset_all(); r(c.execute(0)) });
-    t("cbit 65 measure exec", || { let mut c = Circuit::new(1, 70); c.measure(0,65).unwrap(); r(c.execute(1)) });
-    t("cbit 65 t measure exec", || { let mut c = Circuit::new(1, 70); c.add_gate(T::new(), &[0]).unwrap(); c.measure(0,65).unwrap(); r(c.execute(1)) });
-    t("cbit 64 x measure exec", || { let mut c = Circuit::new(1, 70); c.x(0).unwrap(); c.measure(0,64).unwrap(); r(c.execute(1)) });
-    t("cbit 65 peek exec", || { let mut c = Circuit::new(1, 70); c.peek(0,65).unwrap(); r(c.execute(1)) });
-    t("cbit 65 cond exec", || { let mut c = Circuit::new(1, 70); c.add_conditional_gate(&[65], 1, X::new(), &[0]).unwrap(); r(c.execute(1)) });
-    t("cbit 65 measure_all exec", || { let mut c = Circuit::new(1, 70); c.measure_all(&[65]).unwrap(); r(c.execute(1)) });
-    t("cbit 65 histogram", || { let mut c = Circuit::new(1, 70); c.execute(1).unwrap(); format!("{:?}", c.histogram_string()) });
-    t("cbit 65 open_qasm measure", || { let mut c = Circuit::new(1, 70); c.measure(0,65).unwrap(); r(c.open_qasm()) });
-    t("cbit 65 latex measure", || { let mut c = Circuit::new(1, 70); c.measure(0,65).unwrap(); r(c.latex()) });
-    t("measure_all [0] 2q exec (stab)", || { let mut c = Circuit::new(2, 2); c.measure_all(&[0]).unwrap(); r(c.execute(1)) });
-    t("measure_all [0] 2q +t exec", || { let mut c = Circuit::new(2, 2); c.add_gate(T::new(), &[0]).unwrap(); c.measure_all(&[0]).unwrap(); r(c.execute(1)) });
-    t("measure_all [0,1,0] 2q exec", || { let mut c = Circuit::new(2, 2); c.measure_all(&[0,1,0]).unwrap(); r(c.execute(1)) });
-    t("measure_all [0,1,0] 2q +t exec", || { let mut c = Circuit::new(2, 2); c.add_gate(T::new(), &[0]).unwrap(); c.measure_all(&[0,1,0]).unwrap(); r(c.execute(1)) });
-    t("peek_all [0] 2q exec", || { let mut c = Circuit::new(2, 2); c.peek_all(&[0]).unwrap(); r(c.execute(1)) });
-    t("peek_all [0] 2q +t exec", || { let mut c = Circuit::new(2, 2); c.add_gate(T::new(), &[0]).unwrap(); c.peek_all(&[0]).unwrap(); r(c.execute(1)) });
-    t("measure_all [0] open_qasm", || { let mut c = Circuit::new(2, 2); c.measure_all(&[0]).unwrap(); r(c.open_qasm()) });
-    t("measure_all [0] c_qasm", || { let mut c = Circuit::new(2, 2); c.measure_all(&[0]).unwrap(); r(c.c_qasm()) });
-    t("measure_all [0] latex", || { let mut c = Circuit::new(2, 2); c.measure_all(&[0]).unwrap(); r(c.latex()) });
-    t("0q new exec", || { let mut c = Circuit::new(0, 0); r(c.execute(1)) });
-    t("0q reset_all exec", || { let mut c = Circuit::new(0, 0); c.reset_all(); r(c.execute(1)) });
-    t("0q reset_all latex", || { let mut c = Circuit::new(0, 0); c.reset_all(); r(c.latex()) });
-    t("0q reset_all open_qasm", || { let mut c = Circuit::new(0, 0); c.reset_all(); r(c.open_qasm()) });
-    t("0q reset_all c_qasm", || { let mut c = Circuit::new(0, 0); c.reset_all(); r(c.c_qasm()) });
-    t("0q latex", || { let c = Circuit::new(0, 0); r(c.latex()) });
-    t("0q open_qasm", || { let c = Circuit::new(0, 0); r(c.open_qasm()) });
-    t("0q c_qasm", || { let c = Circuit::new(0, 0); r(c.c_qasm()) });
-    t("0q measure_all [] exec", || { let mut c = Circuit::new(0, 0); c.measure_all(&[]).unwrap(); r(c.execute(1)) });
-    t("0q measure_all [] latex", || { let mut c = Circuit::new(0, 0); c.measure_all(&[]).unwrap(); r(c.latex()) });
-    t("0q peek_all [] exec", || { let mut c = Circuit::new(0, 0); c.peek_all(&[]).unwrap(); r(c.execute(1)) });
-    t("cond [] target0 exec", || { let mut c = Circuit::new(1, 1); c.add_conditional_gate(&[], 0, X::new(), &[0]).unwrap(); c.measure(0,0).unwrap(); r(c.execute(2)) });
-    t("cond [] open_qasm", || { let mut c = Circuit::new(1, 1); c.add_conditional_gate(&[], 0, X::new(), &[0]).unwrap(); r(c.open_qasm()) });
-    t("cond [0,0] exec", || { let mut c = Circuit::new(1, 1); c.add_conditional_gate(&[0,0], 0, X::new(), &[0]).unwrap(); r(c.execute(2)) });
-    t("cond 70 controls exec", || { let mut c = Circuit::new(1, 1); c.add_conditional_gate(&vec![0;70], 0, X::new(), &[0]).unwrap(); r(c.execute(2)) });
-    t("cond [0] latex", || { let mut c = Circuit::new(1, 1); c.add_conditional_gate(&[0], 1, X::new(), &[0]).unwrap(); r(c.latex()) });
-    t("cond [] latex", || { let mut c = Circuit::new(1, 1); c.add_conditional_gate(&[], 0, X::new(), &[0]).unwrap(); r(c.latex()) });
-    t("cond [] c_qasm", || { let mut c = Circuit::new(1, 1); c.add_conditional_gate(&[], 0, X::new(), &[0]).unwrap(); r(c.c_qasm()) });
-    t("cond [0] x [] open_qasm", || { let mut c = Circuit::new(1, 1); c.add_conditional_gate(&[0], 1, X::new(), &[]).unwrap(); r(c.open_qasm()) });
-    t("cond [0] x [] exec", || { let mut c = Circuit::new(1, 1); c.add_conditional_gate(&[0], 1, X::new(), &[]).unwrap(); r(c.execute(1)) });
-    t("reexecute fresh", || { let mut c = Circuit::new(1, 1); r(c.reexecute()) });
-    t("histogram fresh", || { let c = Circuit::new(1, 1); format!("{:?}", c.histogram_string().map(|_| ())) });
-    t("swap [0] latex", || { let mut c = Circuit::new(2, 2); c.add_gate(Swap::new(), &[0]).unwrap(); r(c.latex()) });
-    t("swap [0] open_qasm", || { let mut c = Circuit::new(2, 2); c.add_gate(Swap::new(), &[0]).unwrap(); r(c.open_qasm()) });
-    t("crx [0] open_qasm", || { let mut c = Circuit::new(2, 2); c.add_gate(CRX::new(1.0), &[0]).unwrap(); r(c.open_qasm()) });
-    t("ch [0] c_qasm", || { let mut c = Circuit::new(2, 2); c.add_gate(CH::new(), &[0]).unwrap(); r(c.c_qasm()) });
-    t("x [0,1] latex", || { let mut c = Circuit::new(2, 2); c.add_gate(X::new(), &[0,1]).unwrap(); r(c.latex()) });
-    t("x [0,1] exec", || { let mut c = Circuit::new(2, 2); c.add_gate(X::new(), &[0,1]).unwrap(); r(c.execute(1)) });
-    t("rx [0,1] exec", || { let mut c = Circuit::new(2, 2); c.add_gate(RX::new(1.0), &[0,1]).unwrap(); r(c.execute(1)) });
-    t("rx [] exec", || { let mut c = Circuit::new(2, 2); c.add_gate(RX::new(1.0), &[]).unwrap(); r(c.execute(1)) });
-    t("size_of Circuit", || format!("{} {}", std::mem::size_of::<Circuit>(), std::mem::align_of::<Circuit>()));
+    let args: Vec<String> = std::env::args().collect();
+    let dir = args.get(1).cloned().unwrap_or_else(|| "/tmp/c19".into());
+    let mode = args.get(2).cloned().unwrap_or_else(|| "run".into());
+    let seed = SplitMix64::from_env().0;
+    log_init();
+    silence_panics();
+    warm_up();
+    let size = std::mem::size_of::<Circuit>();
+    let align = std::mem::align_of::<Circuit>();
+    match mode.as_str()
+    {
+        "run" => {
+            let first: usize = args.get(3).and_then(|s| s.parse().ok()).unwrap_or(0);
+            let count: usize = args.get(4).and_then(|s| s.parse().ok()).unwrap_or(200);
+            std::fs::create_dir_all(&dir).unwrap();
+            let mut prog = std::fs::File::create(format!("{}/progress.txt", dir)).unwrap();
+            let mut out = Out::new(&dir);
+            for id in first..first + count
+            {
+                prog.seek(SeekFrom::Start(0)).unwrap();
+                write!(prog, "{:>12}\n", id).unwrap();
+                prog.flush().unwrap();
+                let (c, kind) = gen_case(seed, id, None);
+                let req = format!("case {} {} {} {} {} ; {}", id, kind, size, align, if c.nontrivial { 1 } else { 0 }, c.req.join(" ; "));
+                out.case(&req, &c.ans.join(" ; "));
+                if EV_OVERFLOW.load(Ordering::Relaxed) { eprintln!("event log overflow in case {}", id); std::process::exit(3); }
+            }
+            let n = out.finish();
+            prog.seek(SeekFrom::Start(0)).unwrap();
+            write!(prog, "{:>12}\n", "done").unwrap();
+            eprintln!("c19: {} cases", n);
+        },
+        "isolate" => {
+            let id: usize = args[3].parse().unwrap();
+            let call: usize = args[4].parse().unwrap();
+            let (c, _) = gen_case(seed, id, Some(call));
+            println!("SURVIVED {}", c.ans.get(call).cloned().unwrap_or_default());
+        },
+        "show" => {
+            let id: usize = args[3].parse().unwrap();
+            let (c, kind) = gen_case(seed, id, None);
+            println!("case {} {} {} {} {} ; {}", id, kind, size, align, if c.nontrivial { 1 } else { 0 }, c.req.join(" ; "));
+            println!("{}", c.ans.join(" ; "));
+        },
+        _ => { eprintln!("unknown mode"); std::process::exit(2); }
+    }
 }
